@@ -782,6 +782,11 @@ def run(ck):
         cls = {"first": "law-mismatch-first-step", "chain": "law-mismatch-chain-occupancy", "sir": "law-mismatch-sir-final-size"}[cfg["kind"]]
         ck.violation(cls, "%s: %s test rejects at level %.3g (p = %.3g, %s)"
                      % (tt["name"], tt["kind"], alpha_each, tt["pv"], json.dumps(tt["detail"])), cfg)
+    par = parallel_check()
+    ck.notes["parallel_exact_run"] = {k: v for k, v in par[1].items() if k != "first_waits"}
+    ck.case(dict(kind="parallel"), nontrivial=True)
+    if par[0]:
+        ck.violation(par[0][0], par[0][1], dict(kind="parallel"))
     if chk_thread is not None:
         chk_thread.join()
         ck.notes["coqchk"] = dict(rc=chk_res.get("rc"), tail=(chk_res.get("out") or "")[-700:])
@@ -797,12 +802,47 @@ def run(ck):
     ]
 
 
+def parallel_check():
+    """exact simulation through the parallel (dask) branch, in a fresh process: every step fires exactly one event, every
+    increment is one column of V, and the first waiting times have the mean of Exp(total rate) (24 paths: the mean of 24 unit
+    exponentials is outside [0.22, 2.7] with probability < 1e-9).  -> ((cls, what) | None, raw)"""
+    import subprocess
+    env = dict(os.environ)
+    r = subprocess.run([sys.executable, "-W", "ignore", os.path.join(common.VERIF, "harness", "c05_parallel.py")],
+                       capture_output=True, text=True, env=env, timeout=900, cwd=common.VERIF)
+    line = [l for l in r.stdout.splitlines() if l.startswith("C05PAR ")]
+    if not line:
+        raise common.InternalError("parallel probe produced no result: " + (r.stderr or r.stdout)[-300:])
+    o = json.loads(line[-1][7:])
+    if "error" in o:
+        return ("parallel-exact-raises", "solve_stochast(exact=True, parallel=True) on a fresh model raised " + o["error"]), o
+    if o["paths"] != o["n"]:
+        return ("parallel-exact-path-count", "%d paths returned for %d requested" % (o["paths"], o["n"])), o
+    bad = [e for e in o["events_per_step"] if e not in ([1], [])]
+    if bad:
+        return ("parallel-exact-not-one-event", "exact=True, parallel=True: steps fire %s events (exactly one per step in exact mode); "
+                "first waiting times %s" % (bad[0], [round(w, 4) for w in o["first_waits"][:6]])), o
+    if o["paths_with_dx_not_V_counts"]:
+        return ("parallel-exact-increment", "%d paths have increments that are not the state-change column of the recorded event"
+                % o["paths_with_dx_not_V_counts"]), o
+    w = [x for x in o["first_waits"] if x is not None]
+    mean_scaled = float(np.mean(w)) * o["total_rate"]
+    o["first_wait_mean_times_rate"] = mean_scaled
+    if len(w) != o["n"] or not (0.22 <= mean_scaled <= 2.7) or len(set(w)) < len(w) // 2:
+        return ("parallel-first-wait-law", "first waiting times of %d parallel exact paths: mean x total rate = %.3g, %d distinct values "
+                "(Exp(total rate) expected)" % (len(w), mean_scaled, len(set(w)))), o
+    return None, o
+
+
 def replay(ck, data):
     import pg  # noqa: F401
     c = data["input"]
     if c is None:
         return None
     k = c.get("kind")
+    if k == "parallel":
+        v = parallel_check()[0]
+        return v[1] if v else None
     if k in ("direct", "tie"):
         return judge_step(c["t"], c["rates"], fr_direct(c))
     if k == "path":
